@@ -49,6 +49,12 @@ def main(tier):
         calls, h = histrun.reference_calls(PROP, b, idx, "sw", prof)
         plans = histrun.crash_plans(calls, every=1)
         res.merge(histrun.run_sweep(PROP, b, idx, "sw", prof, ORACLES, plans))
+        # the cleaner cannot remove intd/N or todo/N (its unlink fails): the message must not be scheduled while its todo entry
+        # is still there - the next scan would preprocess it again and every finished recipient would be attempted again
+        cplans = histrun.fault_plans([c for c in calls if c[0] == "qmail-clean" and c[2] == "unlink"])
+        rc_ = histrun.run_sweep(PROP, b, idx, "sw", prof, ORACLES, cplans)
+        rc_.counters.inc("cleaner_unlink_faults_planned", len(cplans))
+        res.merge(rc_)
     # one failing stat()/read()/open()/write() inside qmail-send per run (transient I/O trouble must not lead to a second
     # pass on the same message or to an attempt for a finished recipient; a failed MARK write legitimately does)
     prof2 = dict(prof, count="mtr", trace_extra="tr", before_start=1.0, hold_reports=0.5, p_term_restart=0.12, plan_persist=True,
@@ -64,6 +70,11 @@ def main(tier):
     calls, h = histrun.reference_calls_log(PROP, b, 0, "rf", prof3, classes=("stat", "lstat", "read", "openr"))
     res.counters.inc("restart_fault_reference_calls", len(calls))
     res.merge(histrun.run_sweep(PROP, b, 0, "rf", prof3, ORACLES, histrun.fault_plans(calls, every=1)))
+    # directed: one unlink of the cleaner fails while the first message is taken over from todo/, then a second message's
+    # trigger starts the next todo scan (seed c04-s9)
+    prof4 = {"directed": "cleaner-fault", "conc": [5], "spawn": [120], "lifetimes": [604800]}
+    cf = [("qmail-clean:%d:fail=%s" % (k, er), "fail=%s@clean:unlink:#%d" % (er, k)) for k in range(1, 7) for er in ("EIO", "EACCES")]
+    res.merge(histrun.run_sweep(PROP, b, 0, "cf", prof4, ORACLES, cf))
     rule = ("seeded random histories at the spawner boundary of the real qmail-send: concurrencylocal/remote in {0,1,2,5,120,255}, "
             "announced spawner limit in {0,1,3,120,255}, 1-4 messages with 1-7 recipients (25% with one address listed twice), reports "
             "withheld to fill all slots, TERM with 0..n outstanding then restart, crashes (random and before every mutating call of a "
